@@ -755,3 +755,75 @@ def op_c14(case):
         if r["a"] != r["b"]:
             r["diff"] = first_diff(whole["rows"], exp)
     return r
+
+
+# ---------------------------------------------------------------------------------------------
+# C09 / C10: token streams vs CPython
+# ---------------------------------------------------------------------------------------------
+_XDIGRAPHS = ("||", "&&", "@(", ">&", "??", "!(", "![", "@$(")
+_XPAIRS = {("|", "|"), ("&", "&"), ("@", "("), (">", "&"), ("?", "?"), ("!", "("), ("!", "[")}
+
+
+def py_domain(pytoks) -> str:
+    """'' if the CPython token stream lies in the C09 domain, else the reason it does not"""
+    prev = None
+    run = ""
+    for t in pytoks:
+        ty, s = t[0], t[1]
+        if ty == "ERRORTOKEN":
+            return "errortoken"
+        if ty in ("OP", "ERRORTOKEN") and (set(s) & set("$?`")):
+            return "xonsh_char"
+        if ty == "OP" and s == "<>":
+            return "barry_as_flufl"
+        if ty == "NUMBER":
+            try:
+                ast.literal_eval(s)
+            except (SyntaxError, ValueError):
+                return "invalid_number_literal"  # the tokenize module is more lenient than the language (09, 0_7, 1__0)
+        if ty == "OP" and s == "!":
+            return "bang"
+        if prev is not None and prev[0] == "OP" and ty == "OP" and (prev[4], prev[5]) == (t[2], t[3]):
+            run = run + s
+            if any(d in run for d in _XDIGRAPHS):
+                return "xonsh_digraph"
+        else:
+            run = s if ty == "OP" else ""
+        if prev is not None and prev[0] == "NAME" and ty in ("STRING", "FSTRING_START") and (prev[4], prev[5]) == (t[2], t[3]) \
+                and set(prev[1].lower()) <= set("prfbu") and "p" in prev[1].lower():
+            return "p_string"
+        prev = t
+    return ""
+
+
+def reduce_tokens(rows, impl: bool):
+    out = []
+    for t in rows:
+        ty = t[0]
+        if ty in ("WS", "COMMENT", "NL", "ENCODING", "TYPE_COMMENT"):
+            continue
+        out.append([ty, _h(t[1]), t[2], t[3], t[4], t[5]])
+    return out
+
+
+def op_c09(case):
+    src = case["src"]
+    py = obs_pytok(src)
+    r = {"py_ok": py["toks"] is not None}
+    if not r["py_ok"]:
+        r["py_exc"] = py["exc"]
+        return r
+    r["domain"] = py_domain(py["toks"])
+    r["has_fstring"] = any(t[0] == "FSTRING_START" for t in py["toks"])
+    im = obs_tok(src)
+    r["impl_ok"] = im["toks"] is not None
+    r["impl_hang"] = bool(im.get("hang"))
+    r["impl_exc"] = im.get("exc")
+    if r["impl_ok"]:
+        r["a"] = reduce_tokens(im["toks"], True)
+        r["b"] = reduce_tokens(py["toks"], False)
+        if r["a"] != r["b"]:
+            ia = [t for t in im["toks"] if t[0] not in ("WS", "COMMENT", "NL")]
+            ib = [t for t in py["toks"] if t[0] not in ("COMMENT", "NL")]
+            r["diff"] = first_diff(ia, ib)
+    return r
